@@ -335,6 +335,13 @@ def _run_query(case, R):
         C = _Cmp(R, mech0, point)
         rt = R_GAS * T
 
+        # ---- bookkeeping: points whose matrix+precipitate equilibrium contains a phase twice (miscibility gap, e.g. the Fe-Cr BCC
+        # gap below ~900 K). On base a83e291 the equilibrium-based queries were order dependent there (dG 1246 vs 332 J/mol: the
+        # cached re-solve dropped the precipitate energy offset and ended in the other basin); since f88c6f4/f467f65 they agree
+        # (101 gap points probed, <= 4e-11), so these points are judged like all others and merely counted.
+        sg, css = _safe(lambda: [cs.phase_record.phase_name for cs in A.getEq(xA, T, 0, prec).get_composition_sets()])
+        if sg == 'ok' and len(css) != len(set(css)):
+            R.observe('miscibility_gap_points')
         # ---- driving force + precipitate composition
         sa, ra = _safe(lambda: A.getDrivingForce(xA, T, precPhase=prec, removeCache=True))
         sb, rb = _safe(lambda: B.getDrivingForce(xB, T, precPhase=prec, removeCache=True))
@@ -754,7 +761,7 @@ def _diffusion_cfg(rng, k, quick):
     win = S['homog'] if homog else S['single']
     cfg = {'system': system, 'model': 'homog' if homog else 'single', 'N': int(rng.integers(10, 16) if homog else rng.integers(14, 28)),
            'L': float(10 ** rng.uniform(-4.5, -3.3)), 'T': float(rng.uniform(*S['T'])), 'iterator': 'rk4' if k % 5 == 2 else 'euler',
-           'steps': int(rng.integers(14, 22) if homog else rng.integers(25, 45)), 'profile': {}, 'bc': {}}
+           'steps': int(rng.integers(30, 50) if homog else rng.integers(25, 45)), 'profile': {}, 'bc': {}}
     if homog:
         cfg['hfunc'] = HFUNCS[(k // 4) % len(HFUNCS)]
     for e in S['solutes']:
